@@ -46,7 +46,15 @@ def data_case(draw, n, d, centre, r=None, spread=1000.0, s0=(0.5, 8.0), mean_gap
         r = full_rank(n, d, centre)
     na = n - 1 if centre else n
     hi = _ratio_hi(r, spread)
-    ratios = draw(st.lists(gen.q(1.3, hi), min_size=r - 1, max_size=r - 1))
+    # spectrum profile: uniform ratios concentrate the spread in the middle; draw the extremes on purpose
+    profile = draw(st.sampled_from(["any", "any", "wide", "tight"]))
+    if profile == "wide":
+        lo_r, hi_r = max(1.3, 0.85 * hi), hi
+    elif profile == "tight":
+        lo_r, hi_r = 1.3, min(hi, 1.5)
+    else:
+        lo_r, hi_r = 1.3, hi
+    ratios = draw(st.lists(gen.q(lo_r, hi_r), min_size=r - 1, max_size=r - 1))
     case = {
         "n": n,
         "d": d,
